@@ -6,10 +6,11 @@ import Octo.Lemmas.PlanPush
 namespace Octo.Plan
 open Octo
 
-/-- where an unused Map field may be removed without being noticed: it must not be a field of a datasource, a
-    group-by, a table valued function, an ORDER BY / LIMIT node (its tie-break reads every column), an outer join, or
-    the source side of a lookup join (a DISTINCT over the field counts as a use, so nothing is asked there) -/
+/-- where an unused field may be removed without being noticed: it must not be a field of a
+    table valued function, an ORDER BY / LIMIT node (its tie-break reads every column), an outer join, a key of a
+    group-by, or the source side of a lookup join (a DISTINCT over the field counts as a use, so nothing is asked there) -/
 def Removable (f : String) : Plan → Prop
+  | .leaf _ (.ds _ _ _ _ _) => True
   | .leaf s _ => f ∉ s.fields
   | .un s k src => Removable f src ∧
       (match k with
@@ -17,6 +18,8 @@ def Removable (f : String) : Plan → Prop
        | .filter _ => True
        | .unnest _ => True
        | .distinct => True
+       | .groupBy _ _ key _ _ =>
+         f ∈ s.fields → f ∉ src.fields ∧ f ∉ s.fields.take key.length
        | _ => f ∉ s.fields)
   | .bin s k l r => Removable f l ∧ Removable f r ∧
       (match k with
@@ -114,11 +117,52 @@ theorem rm_sim (db : Db) (f : String) : ∀ (p : Plan) (outer : List String) (p'
   intro p
   induction p with
   | leaf s k =>
-    intro outer p' hg _ hr h
-    simp only [Removable] at hr
-    simp only [rmPlan, rmSchema_id hr, Option.some.injEq] at h
+    intro outer p' hg hu hr h
+    simp only [rmPlan, Option.some.injEq] at h
     subst h
-    exact RmOK.of_step (StepOK.refl hg) hr
+    cases k with
+    | ds name alias pol preds mapping =>
+      simp only [Good, LeafGood] at hg
+      obtain ⟨hnds, hpreds, htab⟩ := hg
+      simp only [usedBelow, usedAtNode, nodeExprs, Bool.or_eq_false_iff] at hu
+      have hfp : f ∉ varsUsedL preds := not_uses_of_L hu.1
+      have hfields := rmSchema_fields (f := f) hnds
+      refine ⟨?_, rfl, ?_⟩
+      · simp only [Good, LeafGood, hfields]
+        refine ⟨nodup_eraseField hnds, exprsOK_erase hpreds hfp, ?_⟩
+        intro trows hdb
+        have := htab trows hdb
+        cases ht : tableRows mapping s.fields trows with
+        | none => rw [ht] at this; cases this
+        | some rows => rw [tableRows_erase ht]; rfl
+      · intro ctx hb
+        simp only [denote, leafRows, dsRows, hfields]
+        cases hdb : db name with
+        | none => rfl
+        | some trows =>
+          simp only
+          have := htab trows hdb
+          cases ht : tableRows mapping s.fields trows with
+          | none => rw [ht] at this; cases this
+          | some rows =>
+            have hn := tableRows_names ht
+            rw [tableRows_erase ht]
+            simp only
+            rw [andAll_erase hfp]
+            apply checked_erase hfields
+            intro out ho
+            rw [andAll_good hn hb hpreds] at ho
+            simp only [Option.some.injEq] at ho
+            subst ho
+            exact names_of_filter hn
+    | mem n =>
+      simp only [Removable] at hr
+      rw [rmSchema_id hr]
+      exact RmOK.of_step (StepOK.refl hg) hr
+    | tvf name args =>
+      simp only [Removable] at hr
+      rw [rmSchema_id hr]
+      exact RmOK.of_step (StepOK.refl hg) hr
   | un s k src ih =>
     intro outer p' hg hu hr h
     simp only [usedBelow, Bool.or_eq_false_iff] at hu
@@ -292,36 +336,153 @@ theorem rm_sim (db : Db) (f : String) : ∀ (p : Plan) (outer : List String) (p'
         have hfk : f ∉ varsUsedL key := fun hm => hfall (by
           obtain ⟨e, he, hx⟩ := mem_varsUsedL.mp hm
           exact mem_varsUsedL.mpr ⟨e, List.mem_append_right _ he, hx⟩)
-        have hfs : f ∉ s.fields := hrk
-        have hrs : rmSchema f s = s := rmSchema_id hfs
-        have h' : some (Plan.un s (.groupBy aggs aggExprs key kti trig) src') = some p' := by
-          rw [← hrs]
-          cases hi : lastIndexOf f s.fields <;> simpa [hi, hrs] using h
-        simp only [Option.some.injEq] at h'
-        subst h'
         simp only [UnGood] at hug
-        refine ⟨?_, hrs.symm, ?_⟩
-        · simp only [Good, UnGood]
-          refine ⟨hnds, IH.good, ?_⟩
-          show ExprsOK (src'.fields ++ outer) (aggExprs ++ key)
-          rw [hsf]
-          exact exprsOK_erase hug hfall
-        · intro ctx hb
-          simp only [denote, unRows, IH.sim ctx hb]
-          cases hd : denote db src ctx with
-          | none => rfl
-          | some rows =>
-            simp only [Option.map_some]
-            split
-            · simp only [groupByRows, keyInputs_erase hfk hfa]
-              refine (checked_id_of_names hfs ?_).symm
-              intro out ho
-              cases hk : keyInputs ctx key aggExprs rows with
-              | none => simp [hk] at ho
-              | some pairs =>
-                simp only [hk] at ho
-                exact groupOut_names ho
-            · rfl
+        obtain ⟨hes, hl1, hl2, htot⟩ := hug
+        cases hi : lastIndexOf f s.fields with
+        | none =>
+          have hfs : f ∉ s.fields := fun hm => by
+            obtain ⟨j, hj, _⟩ := lastIndexOf_some hnds hm
+            rw [hi] at hj
+            cases hj
+          have hrs : rmSchema f s = s := rmSchema_id hfs
+          simp only [hi, Option.some.injEq] at h
+          subst h
+          rw [hrs]
+          refine ⟨?_, hrs.symm, ?_⟩
+          · simp only [Good, UnGood]
+            refine ⟨hnds, IH.good, ?_, hl1, hl2, ?_⟩
+            · show ExprsOK (src'.fields ++ outer) (aggExprs ++ key)
+              rw [hsf]
+              exact exprsOK_erase hes hfall
+            · intro ctx rows hb
+              show (groupByRows ctx s.fields aggs aggExprs key rows).isSome = true
+              have hb' : ∀ r ∈ rows, Binds (src.fields ++ outer) (r :: (ctx ++ [[(f, Value.null)]])) := by
+                intro r hr
+                have := binds_snoc_erase (f := f) (fs := src.fields) Value.null (c := r :: ctx) (by
+                  have := hb r hr
+                  simp only [Plan.fields] at hsf
+                  rw [hsf] at this
+                  exact this)
+                simpa using this
+              have := htot (ctx ++ [[(f, Value.null)]]) rows hb'
+              simp only [groupByRows, keyInputs_snoc hfk hfa] at this
+              simpa only [groupByRows] using this
+          · intro ctx hb
+            simp only [denote, unRows, IH.sim ctx hb]
+            cases hd : denote db src ctx with
+            | none => rfl
+            | some rows =>
+              simp only [Option.map_some]
+              split
+              · simp only [groupByRows, keyInputs_erase hfk hfa]
+                refine (checked_id_of_names hfs ?_).symm
+                intro out ho
+                cases hk : keyInputs ctx key aggExprs rows with
+                | none => simp [hk] at ho
+                | some pairs =>
+                  simp only [hk] at ho
+                  exact groupOut_names ho
+              · rfl
+        | some i =>
+          have hfin : f ∈ s.fields := mem_of_lastIndexOf hi
+          obtain ⟨hfsrc, hkey⟩ := hrk hfin
+          obtain ⟨j, hj, hjlt, hjf, hje⟩ := lastIndexOf_some hnds hfin
+          rw [hi] at hj
+          simp only [Option.some.injEq] at hj
+          subst hj
+          have hki : key.length ≤ i := by
+            rcases Nat.lt_or_ge i key.length with h' | h'
+            · exact absurd (mem_take_of_getElem? hjf h') hkey
+            · exact h'
+          simp only [hi] at h
+          cases hea : eraseAt aggExprs ((i : Int) - key.length) with
+          | none => simp [hea] at h
+          | some aggExprs' =>
+            cases heb : eraseAt aggs ((i : Int) - key.length) with
+            | none => simp [hea, heb] at h
+            | some aggs' =>
+              simp only [hea, heb, Option.some.injEq] at h
+              subst h
+              have hidx : ((i : Int) - key.length).toNat = i - key.length := by omega
+              have hae : aggExprs' = aggExprs.eraseIdx (i - key.length) := by
+                unfold eraseAt at hea
+                split at hea
+                · rw [hidx] at hea; simpa using hea.symm
+                · cases hea
+              have hag : aggs' = aggs.eraseIdx (i - key.length) := by
+                unfold eraseAt at heb
+                split at heb
+                · rw [hidx] at heb; simpa using heb.symm
+                · cases heb
+              have hjlen : i - key.length < aggs.length := by
+                unfold eraseAt at heb
+                split at heb
+                · rename_i hc; rw [hidx] at hc; exact hc.2
+                · cases heb
+              have hieq : key.length + (i - key.length) = i := by omega
+              have hsrcstep := IH.toStep hfsrc
+              have hsf' : src'.fields = src.fields := by simp only [Plan.fields, hsrcstep.2.1]
+              have hfields' : (eraseSchemaField s i).fields = eraseField f s.fields := by
+                simp only [eraseSchemaField, hje]
+              have hfall' : ExprsOK (src'.fields ++ outer) (aggExprs' ++ key) := by
+                rw [hsf', hae]
+                intro e he
+                rcases List.mem_append.mp he with he | he
+                · exact hes e (List.mem_append_left _ (mem_eraseIdx_of he))
+                · exact hes e (List.mem_append_right _ he)
+              have hdrop : ∀ ctx rows out, groupByRows ctx s.fields aggs aggExprs key rows = some out →
+                  groupByRows ctx (eraseSchemaField s i).fields aggs' aggExprs' key rows = some (out.map (eraseKey f)) := by
+                intro ctx rows out ho
+                have := groupByRows_dropAgg (f := f) (j := i - key.length) hnds (by rw [hieq]; exact hjf) ho
+                rw [hieq] at this
+                simpa only [eraseSchemaField, hae, hag] using this
+              refine ⟨?_, by simp only [schema_un, rmSchema, hi], ?_⟩
+              · simp only [Good, UnGood]
+                refine ⟨by rw [hfields']; exact nodup_eraseField hnds, IH.good, hfall', ?_, ?_, ?_⟩
+                · rw [hae, hag, List.length_eraseIdx, List.length_eraseIdx, hl1]
+                · have h1 : i < key.length + aggs.length := by rw [← hl2]; exact hjlt
+                  rw [hag, List.length_eraseIdx, hfields', ← hje, List.length_eraseIdx, hl2]
+                  simp only [h1, hjlen, if_true]
+                  omega
+                · intro ctx rows hb
+                  have hb' : ∀ r ∈ rows, Binds (src.fields ++ outer) (r :: ctx) := by
+                    intro r hr
+                    have := hb r hr
+                    simp only [Plan.fields] at hsf'
+                    rw [hsf'] at this
+                    exact this
+                  have := htot ctx rows hb'
+                  cases ho : groupByRows ctx s.fields aggs aggExprs key rows with
+                  | none => rw [ho] at this; cases this
+                  | some out => rw [hdrop ctx rows out ho]; rfl
+              · intro ctx hb
+                simp only [denote, unRows, hsrcstep.2.2 ctx hb]
+                cases hd : denote db src ctx with
+                | none => rfl
+                | some rows =>
+                  have hn := denote_names hd
+                  simp only
+                  split
+                  · have hsome := htot ctx rows (fun r hr => binds_cons (hn r hr) hb)
+                    cases ho : groupByRows ctx s.fields aggs aggExprs key rows with
+                    | none => rw [ho] at hsome; cases hsome
+                    | some out =>
+                      rw [hdrop ctx rows out ho]
+                      have hno : ∀ r ∈ out, Row.names r = s.fields := by
+                        unfold groupByRows at ho
+                        cases hk : keyInputs ctx key aggExprs rows with
+                        | none => simp [hk] at ho
+                        | some pairs =>
+                          simp only [hk] at ho
+                          exact groupOut_names ho
+                      rw [checked_pass hno]
+                      simp only [Option.map_some]
+                      apply checked_pass
+                      intro r hr
+                      simp only [List.mem_map] at hr
+                      obtain ⟨r0, hr0, rfl⟩ := hr
+                      rw [names_eraseKey, hno r0 hr0, hfields']
+                  · rfl
       | distinct =>
         have hfs : f ∉ s.fields := by
           intro hm
